@@ -101,6 +101,16 @@ func (s *Stats) ForeignViolation(prop string) {
 	s.mu.Unlock()
 }
 
+// ForeignExample keeps the first few foreign violations in full, for diagnosis.
+func (s *Stats) ForeignExample(v Violation, trace []string) {
+	s.mu.Lock()
+	defer s.mu.Unlock()
+	ex, _ := s.Extra["foreign_examples"].([]any)
+	if len(ex) < 3 {
+		s.Extra["foreign_examples"] = append(ex, map[string]any{"violation": v.String(), "history": trace})
+	}
+}
+
 func (s *Stats) Abort(why string) {
 	s.mu.Lock()
 	s.Aborted[why]++
